@@ -54,6 +54,16 @@ def stepTimedAux (tbl : TransTable) (tos : List Nat) : Nat → Fsm → Int → N
 def stepTimed (tbl : TransTable) (tos : List Nat) (a : Fsm) (input : Int) (now : Nat) : Fsm :=
   stepTimedAux tbl tos 2 a input now
 
+/-- the same with a clock that moves WHILE the call runs: the function reads the clock once at entry (`now1`) and — only
+    when the state had expired and it calls itself again — a second time (`now2`).  The decision and, unless expired, the
+    stamp use the reading at entry. -/
+def stepTimedR (tbl : TransTable) (tos : List Nat) (a : Fsm) (input : Int) (now1 now2 : Nat) : Fsm :=
+  let t := timeoutOf tos a.state
+  let expired := t ≠ 0 ∧ diff64 now1 a.lastTs > t
+  let input' : Int := if expired then -1 else input
+  let a' : Fsm := { state := (lookup tbl a.state input').1, lastTs := now1 }
+  if expired then stepTimedAux tbl tos 1 a' input' now2 else a'
+
 /-- switch_state_enumeration: no timeout handling. -/
 def stepPlain (tbl : TransTable) (a : Fsm) (input : Int) (now : Nat) : Fsm :=
   { state := (lookup tbl a.state input).1, lastTs := now }
@@ -61,6 +71,8 @@ def stepPlain (tbl : TransTable) (a : Fsm) (input : Int) (now : Nat) : Fsm :=
 def stepMapping (a : Fsm) (input : Int) (now : Nat) : Fsm := stepTimed X.mappingTable X.mappingTimeouts a input now
 def stepSession (a : Fsm) (input : Int) (now : Nat) : Fsm := stepTimed X.sessionTable X.sessionTimeouts a input now
 def stepEnumeration (a : Fsm) (input : Int) (now : Nat) : Fsm := stepPlain X.enumerationTable a input now
+def stepMappingR (a : Fsm) (input : Int) (now1 now2 : Nat) : Fsm := stepTimedR X.mappingTable X.mappingTimeouts a input now1 now2
+def stepSessionR (a : Fsm) (input : Int) (now1 now2 : Nat) : Fsm := stepTimedR X.sessionTable X.sessionTimeouts a input now1 now2
 
 /-! ## Mapping extra state -/
 
